@@ -118,34 +118,52 @@ class NameFixPass(ir.passes.InPlacePass):
             graph_like
         )
 
+        # The graphs whose scopes are open, parallel to scoped_used_value_names[1:]
+        scope_owners: list[ir.Graph] = []
+
+        def process_value(value: ir.Value) -> bool:
+            first_visit = value not in seen_values
+            changed = self._process_value(
+                value, scoped_used_value_names[-1], seen_values, value_counter
+            )
+            if first_visit:
+                # A value of an enclosing graph can be reached from a subgraph before that graph
+                # reaches it (the graph is not topologically sorted). Its name must then also be
+                # taken in the scope of the graph that owns it and of the graphs in between:
+                # those scopes stay open after the current one is popped.
+                owner = value.graph
+                for i, scope_owner in enumerate(scope_owners):
+                    if scope_owner is owner:
+                        for names in scoped_used_value_names[i + 1 : -1]:
+                            names.add(value.name)  # type: ignore[arg-type]
+                        break
+            return changed
+
         def enter_graph(graph_like) -> None:
             """Callback for entering a subgraph."""
             # Initialize new scopes with all names from the parent scope
             scoped_used_value_names.append(set(scoped_used_value_names[-1]))
             scoped_used_node_names.append(set())
+            scope_owners.append(
+                graph_like.graph if isinstance(graph_like, ir.Function) else graph_like
+            )
 
             nonlocal modified
 
             # Step 1: Fix graph input names first (they have precedence)
             for input_value in graph_like.inputs:
-                if self._process_value(
-                    input_value, scoped_used_value_names[-1], seen_values, value_counter
-                ):
+                if process_value(input_value):
                     modified = True
 
             # Step 2: Fix graph output names (they have precedence)
             for output_value in graph_like.outputs:
-                if self._process_value(
-                    output_value, scoped_used_value_names[-1], seen_values, value_counter
-                ):
+                if process_value(output_value):
                     modified = True
 
             if isinstance(graph_like, ir.Graph):
                 # For graphs, also fix initializers
                 for initializer in tuple(graph_like.initializers.values()):
-                    if self._process_value(
-                        initializer, scoped_used_value_names[-1], seen_values, value_counter
-                    ):
+                    if process_value(initializer):
                         modified = True
 
         def exit_graph(_) -> None:
@@ -153,6 +171,7 @@ class NameFixPass(ir.passes.InPlacePass):
             # Pop the current scope
             scoped_used_value_names.pop()
             scoped_used_node_names.pop()
+            scope_owners.pop()
 
         # Step 3: Process all nodes and their values
         for node in ir.traversal.RecursiveGraphIterator(
@@ -171,16 +190,12 @@ class NameFixPass(ir.passes.InPlacePass):
             # Fix input value names (only if not already processed)
             for input_value in node.inputs:
                 if input_value is not None:
-                    if self._process_value(
-                        input_value, scoped_used_value_names[-1], seen_values, value_counter
-                    ):
+                    if process_value(input_value):
                         modified = True
 
             # Fix output value names (only if not already processed)
             for output_value in node.outputs:
-                if self._process_value(
-                    output_value, scoped_used_value_names[-1], seen_values, value_counter
-                ):
+                if process_value(output_value):
                     modified = True
 
         return modified
